@@ -328,23 +328,53 @@ Section Transform.
       seq (4 * 9) 4 ++ seq (4 * 10) 4 ++ seq (4 * 11) 4 ++ seq (4 * 12) 4 ++ seq (4 * 13) 4 ++
       seq (4 * 14) 4 ++ seq (4 * 15) 4).
     rewrite !fold_left_app.
-    rewrite (rndmsg_step_lo 0) by (try lia; repeat apply stepf_length; exact Hst).
-    rewrite (rndmsg_step_lo 1) by (try lia; repeat apply stepf_length; exact Hst).
-    rewrite (rndmsg_step_lo 2) by (try lia; repeat apply stepf_length; exact Hst).
-    rewrite (rndmsg_step_lo 3) by (try lia; repeat apply stepf_length; exact Hst).
-    rewrite (rndmsg_step_lo 4) by (try lia; repeat apply stepf_length; exact Hst).
-    rewrite (rndmsg_step_lo 5) by (try lia; repeat apply stepf_length; exact Hst).
-    rewrite (rndmsg_step_lo 6) by (try lia; repeat apply stepf_length; exact Hst).
-    rewrite (rndmsg_step_lo 7) by (try lia; repeat apply stepf_length; exact Hst).
-    rewrite (rndmsg_step_lo 8) by (try lia; repeat apply stepf_length; exact Hst).
-    rewrite (rndmsg_step_lo 9) by (try lia; repeat apply stepf_length; exact Hst).
-    rewrite (rndmsg_step_lo 10) by (try lia; repeat apply stepf_length; exact Hst).
-    rewrite (rndmsg_step_lo 11) by (try lia; repeat apply stepf_length; exact Hst).
-    rewrite (rndmsg_step_hi 12) by (try lia; repeat apply stepf_length; exact Hst).
-    rewrite (rndmsg_step_hi 13) by (try lia; repeat apply stepf_length; exact Hst).
-    rewrite (rndmsg_step_hi 14) by (try lia; repeat apply stepf_length; exact Hst).
-    rewrite (rndmsg_step_hi 15) by (try lia; repeat apply stepf_length; exact Hst).
+    rewrite (rndmsg_step_lo 0) by (try lia; repeat first [exact Hst | apply stepf_length]).
+    rewrite (rndmsg_step_lo 1) by (try lia; repeat first [exact Hst | apply stepf_length]).
+    rewrite (rndmsg_step_lo 2) by (try lia; repeat first [exact Hst | apply stepf_length]).
+    rewrite (rndmsg_step_lo 3) by (try lia; repeat first [exact Hst | apply stepf_length]).
+    rewrite (rndmsg_step_lo 4) by (try lia; repeat first [exact Hst | apply stepf_length]).
+    rewrite (rndmsg_step_lo 5) by (try lia; repeat first [exact Hst | apply stepf_length]).
+    rewrite (rndmsg_step_lo 6) by (try lia; repeat first [exact Hst | apply stepf_length]).
+    rewrite (rndmsg_step_lo 7) by (try lia; repeat first [exact Hst | apply stepf_length]).
+    rewrite (rndmsg_step_lo 8) by (try lia; repeat first [exact Hst | apply stepf_length]).
+    rewrite (rndmsg_step_lo 9) by (try lia; repeat first [exact Hst | apply stepf_length]).
+    rewrite (rndmsg_step_lo 10) by (try lia; repeat first [exact Hst | apply stepf_length]).
+    rewrite (rndmsg_step_lo 11) by (try lia; repeat first [exact Hst | apply stepf_length]).
+    rewrite (rndmsg_step_hi 12) by (try lia; repeat first [exact Hst | apply stepf_length]).
+    rewrite (rndmsg_step_hi 13) by (try lia; repeat first [exact Hst | apply stepf_length]).
+    rewrite (rndmsg_step_hi 14) by (try lia; repeat first [exact Hst | apply stepf_length]).
+    rewrite (rndmsg_step_hi 15) by (try lia; repeat first [exact Hst | apply stepf_length]).
     reflexivity.
+  Qed.
+
+  (* ---- loading / storing the state ---- *)
+  Lemma load_abef st : length st = 8%nat ->
+    mm_unpackhi_epi64
+      (mm_shuffle_epi32 (mm_loadu_words st (nthN (n_state_offs C) 1)) (nthN (n_state_shufs C) 1))
+      (mm_shuffle_epi32 (mm_loadu_words st (nthN (n_state_offs C) 0)) (nthN (n_state_shufs C) 0)) = abef st.
+  Proof.
+    intros H. do 8 (destruct st as [|? st]; [discriminate|]). destruct st; [|discriminate]. reflexivity.
+  Qed.
+  Lemma load_cdgh st : length st = 8%nat ->
+    mm_unpacklo_epi64
+      (mm_shuffle_epi32 (mm_loadu_words st (nthN (n_state_offs C) 1)) (nthN (n_state_shufs C) 1))
+      (mm_shuffle_epi32 (mm_loadu_words st (nthN (n_state_offs C) 0)) (nthN (n_state_shufs C) 0)) = cdgh st.
+  Proof.
+    intros H. do 8 (destruct st as [|? st]; [discriminate|]). destruct st; [|discriminate]. reflexivity.
+  Qed.
+  Lemma store_state st v : length st = 8%nat -> length v = 8%nat ->
+    mm_storeu_words
+      (mm_storeu_words st (nthN (n_state_offs C) 2)
+         (mm_shuffle_epi32
+            (mm_unpackhi_epi64 (mm_add_epi32 (cdgh st) (cdgh v)) (mm_add_epi32 (abef st) (abef v)))
+            (nthN (n_state_shufs C) 2)))
+      (nthN (n_state_offs C) 3)
+      (mm_shuffle_epi32
+         (mm_unpacklo_epi64 (mm_add_epi32 (cdgh st) (cdgh v)) (mm_add_epi32 (abef st) (abef v)))
+         (nthN (n_state_shufs C) 3)) = map2 add32 st v.
+  Proof.
+    intros H Hv. do 8 (destruct st as [|? st]; [discriminate|]). destruct st; [|discriminate].
+    do 8 (destruct v as [|? v]; [discriminate|]). destruct v; [|discriminate]. reflexivity.
   Qed.
 
   Theorem transform_shani_rounds st : length st = 8%nat ->
@@ -355,18 +385,10 @@ Section Transform.
       [be32dec_128 C blk 0; be32dec_128 C blk 16; be32dec_128 C blk 32; be32dec_128 C blk 48].
     rewrite (be32dec_128_vec 0 0), (be32dec_128_vec 1 16), (be32dec_128_vec 2 32), (be32dec_128_vec 3 48)
       by (try reflexivity; lia).
-    pose proof (stepf_length 64 0 st Hst) as Hv.
-    pose proof (groups_rounds st Hst) as G.
-    set (v := fold_left stepf (seq 0 64) st) in *.
-    do 8 (destruct st as [|? st]; [discriminate|]). destruct st; [|discriminate].
-    do 8 (destruct v as [|? v]; [discriminate|]). destruct v; [|discriminate].
-    match goal with
-    | |- context [fold_left (RNDMSG C) (n_rndmsg C) (?S0, ?W0)] =>
-      change (fold_left (RNDMSG C) (n_rndmsg C) (S0, W0)) with
-        (fold_left (RNDMSG C) (n_rndmsg C)
-           ((abef [n; n0; n1; n2; n3; n4; n5; n6], cdgh [n; n0; n1; n2; n3; n4; n5; n6]), warr 0))
-    end.
-    rewrite G. reflexivity.
+    change [vec_at Ws (4 * 0); vec_at Ws (4 * 1); vec_at Ws (4 * 2); vec_at Ws (4 * 3)] with (warr 0).
+    rewrite (load_abef st Hst), (load_cdgh st Hst).
+    rewrite (groups_rounds st Hst). cbn [fst snd].
+    apply store_state; [exact Hst | apply stepf_length; exact Hst].
   Qed.
 End Transform.
 
